@@ -87,12 +87,13 @@ def rule_R1(ctx, prj, rid="R1"):
 def rule_R2(ctx, prj):
     ctx.rule("R2", "filter_tokens' predicate, Token.is_whitespace and Token.is_comment evaluated abstractly over token-kind "
                    "class x text class: every Comment.* token is dropped, Text/Whitespace tokens whose text is empty or only "
-                   "whitespace are dropped, everything else is kept (defaults read from the signature)", floor=30)
+                   "whitespace (blanks, tabs, line feeds, carriage returns, form feeds, vertical tabs) are dropped, everything else is kept (defaults read from the signature)", floor=30)
     from ..absint import make_token
     ft = prj.func(f"{SRC}:filter_tokens")
     kinds = ["Text", "Whitespace", "Comment", "Comment.Single", "Comment.Multiline", "Comment.Preproc", "Comment.PreprocFile",
              "Comment.Hashbang", "Comment.Special", "Keyword", "Name", "Punctuation", "Operator", "Literal.String", "Other"]
-    texts = {"empty": "", "whitespace-only": " \t", "newline": "\n", "has-non-whitespace": "x"}
+    texts = {"empty": "", "whitespace-only": " \t", "newline": "\n", "carriage-return-newline": "\r\n", "form-feed-and-vertical-tab": "\f\x0b",
+             "has-non-whitespace": "x"}
     bad = []
     for k in kinds:
         for tn, tv in texts.items():
